@@ -5,6 +5,9 @@
 //                                                                    validated against
 //   golden (-DVT_C03_ALIGNED -DGLM_FORCE_INTRINSICS -m<isa>)      -> the same entries on the real intrinsics (VT_GOLDEN_OUT)
 #define GLM_ENABLE_EXPERIMENTAL
+#ifdef VT_C03_ALIGNED
+#define VT_GOLDEN_ONLY
+#endif
 #include "driver.hpp"
 #ifdef VT_SIMD
 #define float vt::sf32
@@ -171,4 +174,45 @@ ENTRY(dq_mul_s_c) { auto q = DQ(0); q *= DS(1); out_qua(c, q); }
 ENTRY(dq_div_s_c) { auto q = DQ(0); q /= DS(1); out_qua(c, q); }
 ENTRY(dq_add_c) { auto q = DQ(0); q += DQ(1); out_qua(c, q); }
 ENTRY(dq_mul) { out_qua(c, DQ(0) * DQ(1)); }
+// ---- 32-bit integers (aligned ivec4 / uvec4 / ivec3): the SIMD build reads the retargeted specialisations (gen_C03_intsrc.py)
+#define TI typename S::i32
+#define TU typename S::u32
+#define I4(a) in_vec<4, TI, QH>(c, a)
+#define U4(a) in_vec<4, TU, QH>(c, a)
+#define I3(a) in_vec<3, TI, QH>(c, a)
+ENTRY(i4_add) { out_vec(c, I4(0) + I4(1)); }
+ENTRY(i4_sub) { out_vec(c, I4(0) - I4(1)); }
+ENTRY(i4_mul) { out_vec(c, I4(0) * I4(1)); }
+ENTRY(i4_and) { out_vec(c, I4(0) & I4(1)); }
+ENTRY(i4_or) { out_vec(c, I4(0) | I4(1)); }
+ENTRY(i4_xor) { out_vec(c, I4(0) ^ I4(1)); }
+ENTRY(i4_not) { out_vec(c, ~I4(0)); }
+ENTRY(i4_neg) { out_vec(c, -I4(0)); }
+ENTRY(i4_add_s) { out_vec(c, I4(0) + c.template in<TI>(1, 0)); }
+ENTRY(i4_compound) { auto t = I4(0); t += I4(1); t -= I4(2); t *= I4(1); t &= I4(2); t |= I4(0); t ^= I4(1); out_vec(c, t); }
+ENTRY(i4_eq) { c.out(I4(0) == I4(1)); }
+ENTRY(i4_ne) { c.out(I4(0) != I4(1)); }
+ENTRY(i4_abs) { out_vec(c, glm::abs(I4(0))); }
+ENTRY(i4_min) { out_vec(c, glm::min(I4(0), I4(1))); }
+ENTRY(i4_max) { out_vec(c, glm::max(I4(0), I4(1))); }
+ENTRY(i4_clamp) { out_vec(c, glm::clamp(I4(0), I4(1), I4(2))); }
+ENTRY(i3_add) { out_vec(c, I3(0) + I3(1)); }
+ENTRY(i3_mul) { out_vec(c, I3(0) * I3(1)); }
+ENTRY(i3_and) { out_vec(c, I3(0) & I3(1)); }
+ENTRY(u4_add) { out_vec(c, U4(0) + U4(1)); }
+ENTRY(u4_sub) { out_vec(c, U4(0) - U4(1)); }
+ENTRY(u4_mul) { out_vec(c, U4(0) * U4(1)); }
+ENTRY(u4_and) { out_vec(c, U4(0) & U4(1)); }
+ENTRY(u4_or) { out_vec(c, U4(0) | U4(1)); }
+ENTRY(u4_xor) { out_vec(c, U4(0) ^ U4(1)); }
+ENTRY(u4_not) { out_vec(c, ~U4(0)); }
+ENTRY(u4_eq) { c.out(U4(0) == U4(1)); }
+ENTRY(u4_ne) { c.out(U4(0) != U4(1)); }
+ENTRY(u4_min) { out_vec(c, glm::min(U4(0), U4(1))); }
+ENTRY(u4_max) { out_vec(c, glm::max(U4(0), U4(1))); }
+ENTRY(u4_clamp) { out_vec(c, glm::clamp(U4(0), U4(1), U4(2))); }
+ENTRY(i4_splat) { out_vec(c, glm::vec<4, TI, QH>(c.template in<TI>(0, 0))); }
+ENTRY(i4_ctor) { out_vec(c, glm::vec<4, TI, QH>(c.template in<TI>(0, 0), c.template in<TI>(0, 1), c.template in<TI>(0, 2), c.template in<TI>(0, 3))); }
+ENTRY(v4_from_i4) { out_vec(c, glm::vec<4, TY, QH>(I4(0))); }
+ENTRY(i4_from_v4) { out_vec(c, glm::vec<4, TI, QH>(V4(0))); }
 VT_MAIN("C03")
